@@ -7,7 +7,7 @@ import (
 	"strings"
 	"time"
 
-	"github.com/rulego/streamsql/utils/simrt"
+	"verif.local/simrt"
 )
 
 // C15 — MATCH_RECOGNIZE reports exactly the valid leftmost-longest matches per partition
